@@ -35,7 +35,7 @@ theorem accepted_defMap {cfg : Config} (h : Accepted cfg = true) : cfg.defMap < 
 
 theorem inv_init {cfg : Config} (hacc : Accepted cfg = true) :
     Inv cfg (Dev.init cfg) (Book.init (StObs.ofDev (Dev.init cfg))) := by
-  refine ⟨⟨rfl, rfl, rfl, accepted_ch hacc, accepted_defMap hacc, rfl, wrap8_range _, wrap8_range _, ?_⟩,
+  refine ⟨⟨rfl, rfl, rfl, accepted_ch hacc, accepted_defMap hacc, rfl, trivial, trivial, ?_⟩,
     rfl, rfl, rfl, ?_⟩
   · intro p hp; simp [Dev.init] at hp
   · intro _
@@ -47,7 +47,8 @@ theorem inv_init {cfg : Config} (hacc : Accepted cfg = true) :
 
 /-! ### induction over the history -/
 
-def nowrapObs (s : StObs) : Prop := -128 < s.oct ∧ s.oct < 127 ∧ -128 < s.semi ∧ s.semi < 127
+/-- kept for the shape of the statements: since octave / semitone are `int` there is nothing to exclude -/
+def nowrapObs (_s : StObs) : Prop := True
 
 theorem steps_sim {cfg : Config} (hacc : Accepted cfg = true) :
     ∀ (evs : List Ev) (d : Dev) (b : Book) (i : Nat) (infos : List (Option Nat × Bool)),
@@ -293,40 +294,32 @@ theorem checkAll_key (cfg : Config) (evs : List Ev) (disc : Bool)
       | false => simp
       | true => simp [c2 hok]
 
-/-- MAIN THEOREM (full strength): the only monitor failures the model can produce on a key-only history of an
-    accepted configuration are C04 "state-evolution" / "initial-state" failures (the known int8 wrap-around of
-    octave / semitone). -/
+/-- MAIN THEOREM: on every key-only history of an accepted configuration the model satisfies every monitor of
+    `Hidi.Spec` / `Hidi.SpecAxis` — C01, C02, C03, C04, C05, C13, C14, with or without a final disconnect.
+    (Before the int8 repair of octave / semitone this held only up to C04 "state-evolution" / "initial-state"
+    failures at the wrap-around; the fields are `int` now and the model adds and subtracts in ℤ.) -/
+theorem key_histories_all (cfg : Config) (evs : List Ev) (disc : Bool)
+    (hacc : Accepted cfg = true) (hk : evs.all keyOnly = true) :
+    checkAll (modelTrace cfg evs disc) = [] := by
+  obtain ⟨infos, hinfos, heq⟩ := checkAll_key cfg evs disc hacc hk
+  obtain ⟨-, -, s3⟩ := steps_sim hacc evs (Dev.init cfg) _ 0 infos (inv_init hacc) hk hinfos
+  rw [heq, s3 (fun _ _ => trivial), List.append_nil, if_neg]
+  intro h
+  apply h
+  simp only [StObs.ofDev, Dev.init, initExpected, List.length_nil]
+
 theorem key_histories (cfg : Config) (evs : List Ev) (disc : Bool)
     (hacc : Accepted cfg = true) (hk : evs.all keyOnly = true) :
     ∀ f ∈ checkAll (modelTrace cfg evs disc),
       f.prop = "C04" ∧ (f.clause = "state-evolution" ∨ f.clause = "initial-state") := by
-  obtain ⟨infos, hinfos, heq⟩ := checkAll_key cfg evs disc hacc hk
-  obtain ⟨-, s2, -⟩ := steps_sim hacc evs (Dev.init cfg) _ 0 infos (inv_init hacc) hk hinfos
-  intro f hf
-  rw [heq] at hf
-  rcases List.mem_append.mp hf with h | h
-  · split at h
-    · simp only [List.mem_singleton] at h; subst h; exact ⟨rfl, Or.inr rfl⟩
-    · simp at h
-  · exact ⟨(s2 f h).1, Or.inl (s2 f h).2⟩
+  rw [key_histories_all cfg evs disc hacc hk]
+  intro f hf; cases hf
 
-/-- the defaults fit int8 and octave/semitone never reach the ends of the int8 range during the history -/
-def NoWrap (cfg : Config) (evs : List Ev) : Prop :=
-  -128 ≤ cfg.defOct ∧ cfg.defOct ≤ 127 ∧ -128 ≤ cfg.defSemi ∧ cfg.defSemi ≤ 127 ∧
-  ∀ st ∈ (modelTrace cfg evs false).steps, -128 < st.st.oct ∧ st.st.oct < 127 ∧ -128 < st.st.semi ∧ st.st.semi < 127
+/-- kept for the shape of older statements: nothing needs to be excluded any more -/
+def NoWrap (_cfg : Config) (_evs : List Ev) : Prop := True
 
-/-- with no wrap-around there is no failure at all -/
 theorem key_histories_nowrap (cfg : Config) (evs : List Ev) (disc : Bool)
-    (hacc : Accepted cfg = true) (hk : evs.all keyOnly = true) (hw : NoWrap cfg evs) :
-    checkAll (modelTrace cfg evs disc) = [] := by
-  obtain ⟨infos, hinfos, heq⟩ := checkAll_key cfg evs disc hacc hk
-  obtain ⟨-, -, s3⟩ := steps_sim hacc evs (Dev.init cfg) _ 0 infos (inv_init hacc) hk hinfos
-  obtain ⟨w1, w2, w3, w4, w5⟩ := hw
-  rw [heq, s3 w5, List.append_nil, if_neg]
-  intro h
-  apply h
-  have e1 : wrap8 cfg.defOct = cfg.defOct := by unfold wrap8; omega
-  have e2 : wrap8 cfg.defSemi = cfg.defSemi := by unfold wrap8; omega
-  simp only [StObs.ofDev, Dev.init, initExpected, e1, e2, List.length_nil]
+    (hacc : Accepted cfg = true) (hk : evs.all keyOnly = true) (_hw : NoWrap cfg evs) :
+    checkAll (modelTrace cfg evs disc) = [] := key_histories_all cfg evs disc hacc hk
 
 end Hidi.EngineSim
